@@ -86,6 +86,40 @@ impl Prop for C04 {
                 Some(Case::Purity(ts))
             },
         ));
+        {
+            // caches keyed by the *shape* of a computation (unit pair, currency pair, rule, zone
+            // pair ...) are the realistic way to make a calculator remember: drive every shape
+            // with several operand values, zero first
+            let depth = tier.pick(3, 4);
+            f.push(Family::new(
+                "same-shape-histories",
+                Mode::Full,
+                &format!("every sequence of 1..={} evaluations of ONE line shape with operands from [0, 1, 2,5, 1000] (shapes: unit conversion within a family and across metric/imperial, currency conversion, money sum, percentage, alias word arithmetic, date + N days, N to hex, zone conversion at N o'clock, duration conversion, variable round trip), plus every ordered pair of (shape, operand) texts: each on its own fresh calculator, every observation equal to a calculator used once", depth),
+                move |ch| {
+                    let shapes: [&str; 11] = ["{} kb to byte", "{} inch to cm", "{} usd to try", "{} eur + 1 usd", "{}% of 200", "{} times 3", "15/6/2021 + {} days", "{} to hex", "{}:00 EST to CET", "{} hours 30 minutes as minutes", "v = {} km\nv to m"];
+                    let operands: [&str; 4] = ["0", "1", "2,5", "1000"];
+                    let fill = |shape: &str, op: &str| -> String {
+                        // integer-only slots get the integer part
+                        let op = if shape.contains("hex") || shape.contains(":00") || shape.contains("days") || shape.contains("hours") { op.split(',').next().unwrap().trim_end_matches("000").to_string() } else { op.to_string() };
+                        let op = if op.is_empty() { "1".to_string() } else { op };
+                        shape.replace("{}", &op).replace("\\n", "\n")
+                    };
+                    let pairs = ch.flag();
+                    if pairs {
+                        let a = fill(*ch.pick(&shapes), *ch.pick(&operands));
+                        let b = fill(*ch.pick(&shapes), *ch.pick(&operands));
+                        return Some(Case::Purity(vec![a, b]));
+                    }
+                    let shape = *ch.pick(&shapes);
+                    let n = 1 + ch.choose(depth);
+                    let mut ts = Vec::new();
+                    for _ in 0..n {
+                        ts.push(fill(shape, *ch.pick(&operands)));
+                    }
+                    Some(Case::Purity(ts))
+                },
+            ));
+        }
         let ds = tier.pick(3, 4);
         f.push(Family::new(
             "session-histories",
